@@ -441,6 +441,8 @@ def selection(w: World, A, kv, key_style="letter", subset_pos=None):
             sel.append((l, ("c", items[1])))
         else:
             pos = (subset_pos or {}).get(l) or w.subset_pos[l]
+            if pos == "all":
+                pos = list(range(len(items)))
             chosen = [items[p] for p in pos]
             if k == "subset":
                 d = w.subdim(l, pos)
@@ -543,7 +545,8 @@ def case_setitem(prog, A, kv, rhs, key_style="letter", subset_pos=None, taint_mo
         case.v("raises", kind == "raise", "a right-hand side lacking a dimension of the addressed region was not refused")
         common_checks(case, w, inputs, snaps, kind, r, inplace_target=x)
         return finish(case, w)
-    exp = ("upd", X, tuple(sorted(sel)), vt) if sel else vt
+    sel_eff = [(l, s) for l, s in sel if not (s[0] == "v" and s[1] == vkey(w.items(l)))]      # selecting every item restricts nothing
+    exp = ("upd", X, tuple(sorted(sel_eff)), vt) if sel_eff else vt
     if kind != "ok":
         case.v("result", False, f"assignment ended with {kind}: {describe(r, w)}")
     else:
@@ -838,6 +841,12 @@ def case_write_unknown_in_list(prog, A, taint_mode="abort"):
 def misc_index_cases(prog, taint_mode="abort"):
     for A in [("a",), ("b", "a")]:
         yield lambda A=A: case_write_unknown_in_list(prog, A, taint_mode)
+    # a "subset" Dimension holding ALL items in the original order (a mere renaming): still a read that yields an independent array
+    for A in [("a",), ("a", "b"), ("b", "a", "c")]:
+        for i, l in enumerate(A):
+            kv = tuple("subset" if j == i else "absent" for j in range(len(A)))
+            yield lambda A=A, kv=kv, l=l: case_getitem(prog, A, kv, "letter", {l: "all"}, "concrete")
+            yield lambda A=A, kv=kv, l=l: case_setitem(prog, A, kv, "array-same", "letter", {l: "all"}, "concrete")
     for A in [("a",), ("a", "b"), ("b", "a", "c")]:
         for how in ("slice", "slice-in-tuple", "unknown-item", "unknown-item-in-dict", "unknown-dim-in-dict", "ambiguous-item",
                     "non-subset-dimension", "subset-dimension-of-other-dim"):
